@@ -99,7 +99,7 @@ class C13(BaseCheck):
   REQUIRED_CLASSES = ('headers', 'ctx:ascii', 'ctx:utf8', 'ctx:empty', 'ctx:long', 'ctx:none',
                       'deadline', 'client-id', 'reply:OK', 'reply:ERROR', 'reply:NACK', 'reply:Rerr',
                       'reply:BAD_Rerr', 'tdiscarded', 'wire', 'wire:requests-while-opening', 'wire:simultaneous-discards', 'wire:stalled-across-ping',
-                      'wire:short-sends', 'wire:after-unserialisable-call', 'deadline:already-past')
+                      'wire:short-sends', 'wire:after-unserialisable-call', 'deadline:already-past', 'sibling-service-marshalled-first')
   ASSUMPTIONS = ('context keys/values are text; encoded length of each <= 32767 bytes (int16 length field)',
                  'deadline context = (whole-second wall-clock timestamp in ns, absolute deadline in ns), '
                  'deadline compared with 1us tolerance for the float->ns conversion')
@@ -223,6 +223,19 @@ class C13(BaseCheck):
     else:
       top = ser
     frames = 0
+    if idx % 3 == 1:
+      # another client of this process talks to a sibling service (same base service, a method of the
+      # same name with another argument struct) and has marshalled a call before this one does
+      from vlib.gen.verifsvc import Ext2Service
+      classes.add('sibling-service-marshalled-first')
+      cap2 = _CaptureProvider()
+      ser2 = ThriftMuxMessageSerializerSink(cap2, None, {SinkProperties.ServiceInterface: Ext2Service.Iface,
+                                                         SinkProperties.Label: 'svc2'})
+      st2 = ClientMessageSinkStack()
+      st2.Push(_ReplyCapture(), None)
+      m2 = MethodCallMessage(Ext2Service.Iface, 'extra', (7, 'decoy'), {})
+      m2.properties['__Endpoint'] = None
+      ser2.AsyncProcessRequest(st2, m2, None, {})
     for _ in range(12):
       module, method, args, kwargs = self._gen_call(rng)
       msg = MethodCallMessage(Iface, method, args, kwargs)
